@@ -1,4 +1,4 @@
-import Dashu.Proofs.Ratio.FBigFinal
+import Dashu.Proofs.Ratio.FBigSpecial
 import Dashu.Gen.Misc
 import Mathlib.Order.Compare
 /-
@@ -116,6 +116,13 @@ theorem next_up_down_adjacent (up : Bool) (x : Q) (limit : Nat) (hx : Reduced x)
          else r.val < (p : Rat) / q ∧ (p : Rat) / q < x.val) → limit < q) :=
   nextUpDown_spec up x limit hx
 
+/-- the early return of `next_up` / `next_down` (`limit.is_one() && self.is_int()`, fix ef17af6),
+    mirrored in the model: the neighbours of the integer `n` in the Farey sequence of order 1 are
+    `n ± 1` -/
+theorem next_up_down_limit_one_int (up : Bool) (n : Int) :
+    nextUpDown up ⟨n, 1⟩ 1 = .ok (some ⟨if up then n + 1 else n - 1, 1⟩) :=
+  nextUpDown_limit_one up n
+
 /-- **`nearest`**: `Exact(x)` iff the denominator fits; otherwise the closer of `next_down` and
     `next_up` (the lower one on a tie) tagged with the sign of `result − x`
     (`negative = true` ⇔ the result is below `x`). -/
@@ -205,21 +212,106 @@ theorem fbig_model_set_is_rounding_set (mode : RMode) (b p : Nat) (hb : 2 ≤ b)
     reduced fraction that rounds back to exactly that float, and every fraction that rounds to it
     is at most as simple.  (The code deviates through `ErrorBounds`: recorded finding; the driver
     reproduces the code from named deviations of this model.) -/
-theorem simplest_from_fbig_exact (simplerCode : Q → Q → Bool) (mode : RMode) (b : Nat) (hb : 2 ≤ b)
+theorem simplest_from_fbig_exact (mode : RMode) (b : Nat) (hb : 2 ≤ b)
     (signif exp : Int) (p : Nat) (hs : signif ≠ 0) (hp : 1 ≤ p)
     (hdig : digitsB b (signif.natAbs + 1) signif.natAbs ≤ p) :
-    ∃ r, simplestFromFBig Quirks.none simplerSpec simplerCode mode b signif exp p = .ok (some r) ∧
+    ∃ r, simplestFromFBig Quirks.none simplerSpec mode b signif exp p = .ok (some r) ∧
       Reduced r ∧ RoundsTo b mode.toF p r.val ((signif : Rat) * (b : Rat) ^ exp) ∧
       ∀ (p' : Int) (s' : Nat), 0 < s' →
         RoundsTo b mode.toF p ((p' : Rat) / s') ((signif : Rat) * (b : Rat) ^ exp) →
         AsSimple r ⟨p', s'⟩ :=
-  simplestFromFBig_exact simplerCode mode b hb signif exp p hs hp hdig
+  simplestFromFBig_exact mode b hb signif exp p hs hp hdig
 
 -- non-vacuity: DBig 0.5 at precision 1, mode Zero: hypotheses hold and the result is 1/2;
 -- 2e1 under HalfAway: 15
 example : digitsB 10 (5 + 1) 5 ≤ 1 ∧
-    simplestFromFBig Quirks.none simplerSpec simplerSpec .zero 10 5 (-1) 1 = .ok (some ⟨1, 2⟩) ∧
-    simplestFromFBig Quirks.none simplerSpec simplerSpec .halfAway 10 2 1 1 = .ok (some ⟨15, 1⟩) := by
+    simplestFromFBig Quirks.none simplerSpec .zero 10 5 (-1) 1 = .ok (some ⟨1, 2⟩) ∧
+    simplestFromFBig Quirks.none simplerSpec .halfAway 10 2 1 1 = .ok (some ⟨15, 1⟩) := by
+  decide
+
+/-- **where the code's error bounds are the required ones** (complement of the recorded finding,
+    as a theorem about the two settings of the deviation switches): for an EVEN base, a significand
+    that is not a power of the base (`S ≠ b^(p−1)`: the spacing is the same on both sides), and — for
+    `HalfEven` — a stored significand whose oddness coincides with the evenness of the padded one
+    (`odd = (S even)`: precision larger than the digit count), the table the code uses
+    (`Quirks.code`, proved equal to the regenerated `ErrorBounds` in `Props/C18Gen`) IS the rounding
+    set (`Quirks.none`). -/
+theorem code_set_is_rounding_set_on_class (mode : RMode) (b p : Nat) (neg : Bool) (S : Nat)
+    (odd : Bool) (hb : b % 2 = 0) (hS : S ≠ b ^ (p - 1))
+    (hpar : mode = .halfEven → odd = decide (S % 2 = 0)) :
+    roundingSet Quirks.code mode b p neg S odd = roundingSet Quirks.none mode b p neg S odd := by
+  have hhalf : (2 * (((b + 1) / 2 : Nat) : Int)) = ((2 * (b : Int)) / 2) := by omega
+  cases mode <;>
+    simp only [roundingSet, Quirks.code, Quirks.none, hS, false_and, and_false, not_true_eq_false,
+      not_false_eq_true, and_true, if_false, if_true, hhalf, Bool.false_eq_true]
+  · -- halfEven
+    rw [hpar rfl]
+
+/-- … hence on that class the code side of the model returns the optimal fraction: `simplestFromFBig`
+    depends on the switches only through `roundingSet` when the precision is limited -/
+theorem code_optimal_on_class (mode : RMode) (b : Nat) (hb : 2 ≤ b) (hb2 : b % 2 = 0)
+    (signif exp : Int) (p : Nat) (hs : signif ≠ 0) (hp : 1 ≤ p)
+    (hdig : digitsB b (signif.natAbs + 1) signif.natAbs ≤ p)
+    (hS : signif.natAbs * b ^ (p - digitsB b (signif.natAbs + 1) signif.natAbs) ≠ b ^ (p - 1))
+    (hpar : mode = .halfEven → decide (signif.natAbs % 2 = 1) =
+      decide (signif.natAbs * b ^ (p - digitsB b (signif.natAbs + 1) signif.natAbs) % 2 = 0)) :
+    simplestFromFBig Quirks.code simplerSpec mode b signif exp p =
+      simplestFromFBig Quirks.none simplerSpec mode b signif exp p := by
+  unfold simplestFromFBig
+  simp only [if_neg hs, if_neg (by omega : ¬ p = 0), if_neg (by omega :
+    ¬ digitsB b (signif.natAbs + 1) signif.natAbs > p)]
+  rw [code_set_is_rounding_set_on_class mode b p _ _ _ hb2 hS hpar]
+
+-- non-vacuity: DBig 1.25 at precision 4 under HalfEven (stored significand 125 odd, padded 1250 even)
+example : (10 : Nat) % 2 = 0 ∧ digitsB 10 (125 + 1) 125 ≤ 4 ∧
+    125 * 10 ^ (4 - digitsB 10 (125 + 1) 125) ≠ 10 ^ (4 - 1) ∧
+    decide (125 % 2 = 1) = decide (125 * 10 ^ (4 - digitsB 10 (125 + 1) 125) % 2 = 0) ∧
+    simplestFromFBig Quirks.code simplerSpec .halfEven 10 125 (-2) 4 = .ok (some ⟨5, 4⟩) := by
+  decide
+
+/-- **`RBig::simplest_from_float`, special inputs** (the function the driver executes,
+    `rbigSimplestFromFloat`; every mode, base, precision, and every setting of the deviation
+    switches): `None` exactly for an infinite float (`Repr::is_infinite`: significand 0 and exponent
+    ≠ 0); the float zero gives 0. -/
+theorem simplest_from_fbig_none_iff_infinite (k : Quirks) (simpler : Q → Q → Bool) (mode : RMode)
+    (b : Nat) (signif exp : Int) (p : Nat) :
+    (rbigSimplestFromFloat k simpler mode b signif exp p = .ok (some none) ↔
+      (signif = 0 ∧ exp ≠ 0)) ∧
+    rbigSimplestFromFloat k simpler mode b 0 0 p = .ok (some (some Q.zero)) :=
+  ⟨rbigSimplestFromFloat_none_iff k simpler mode b signif exp p,
+   rbigSimplestFromFloat_zero k simpler mode b p⟩
+
+/-- **unlimited precision (context precision 0) ⇒ the number itself**: for every base `b ≥ 2`,
+    every mode, every non-zero float `signif·b^exp` the required result is the reduced fraction of
+    exactly that value; the code does the same under `Zero`, `HalfAway`, `HalfEven`, and panics
+    (`f.ulp()` of an unlimited-precision float: recorded finding) under `Away`, `Up`, `Down`. -/
+theorem simplest_from_fbig_unlimited (simpler : Q → Q → Bool) (mode : RMode) (b : Nat) (hb : 2 ≤ b)
+    (signif exp : Int) (hs : signif ≠ 0) :
+    (∃ r, rbigSimplestFromFloat Quirks.none simpler mode b signif exp 0 = .ok (some (some r)) ∧
+      Reduced r ∧ r.val = (signif : Rat) * (b : Rat) ^ exp) ∧
+    ((mode = .zero ∨ mode = .halfAway ∨ mode = .halfEven) →
+      rbigSimplestFromFloat Quirks.code simpler mode b signif exp 0 =
+        rbigSimplestFromFloat Quirks.none simpler mode b signif exp 0) ∧
+    ((mode = .away ∨ mode = .up ∨ mode = .down) →
+      rbigSimplestFromFloat Quirks.code simpler mode b signif exp 0 = .error .unlimitedPrecision) := by
+  refine ⟨rbigSimplestFromFloat_unlimited Quirks.none simpler mode b hb signif exp hs (Or.inl rfl),
+    fun hm => ?_, rbigSimplestFromFloat_unlimited_code_panics simpler mode b signif exp hs⟩
+  obtain ⟨r1, h1, _, v1⟩ := rbigSimplestFromFloat_unlimited Quirks.code simpler mode b hb signif exp hs (Or.inr hm)
+  obtain ⟨r2, h2, _, v2⟩ := rbigSimplestFromFloat_unlimited Quirks.none simpler mode b hb signif exp hs (Or.inl rfl)
+  rcases hm with rfl | rfl | rfl <;> rfl
+
+/-- the driver's entry point on ordinary input is the finite body the main theorem is about -/
+theorem simplest_from_fbig_entry (k : Quirks) (simpler : Q → Q → Bool) (mode : RMode)
+    (b : Nat) (signif exp : Int) (p : Nat) (hs : signif ≠ 0) :
+    rbigSimplestFromFloat k simpler mode b signif exp p =
+      (simplestFromFBig k simpler mode b signif exp p).map (Option.map some) :=
+  rbigSimplestFromFloat_finite k simpler mode b signif exp p hs
+
+-- +inf = (0, 1), −inf = (0, −1) ↦ None;  DBig 1.25 of unlimited precision ↦ 5/4 (mode Up: required)
+example : rbigSimplestFromFloat Quirks.code simplerSpec .up 10 0 1 0 = .ok (some none) ∧
+    rbigSimplestFromFloat Quirks.code simplerSpec .halfEven 2 0 (-1) 7 = .ok (some none) ∧
+    rbigSimplestFromFloat Quirks.none simplerSpec .up 10 125 (-2) 0 = .ok (some (some ⟨5, 4⟩)) ∧
+    rbigSimplestFromFloat Quirks.code simplerSpec .up 10 125 (-2) 0 = .error .unlimitedPrecision := by
   decide
 
 example : nextUpDown true ⟨853, 113⟩ 10 = .ok (some ⟨68, 9⟩) := by decide
